@@ -437,7 +437,7 @@ func c08Test(t *testing.T, kind string) {
 	rapid.Check(t, func(rt *rapid.T) {
 		c := genC08(rt, kind)
 		v, nt, inc := runC08(c)
-		if inc {
+		if inc || (v != nil && vFlapsSinceMark() > 0) {
 			col.Inconclusive()
 			return
 		}
